@@ -213,6 +213,10 @@ def direct_expectations(prog, houses):
             fprefix = [fin[1]]
         elif fin[0] == "abs":
             fprefix = ["", "top", fin[1]]
+        elif fin[0] == "offramernamed" and len(fin) > 2:
+            fprefix = ["framer", names[fin[2]], fin[1]]      # `via w of framer NAME`: the named framer, whoever is being built
+        elif fin[0] == "offramer":
+            fprefix = ["framer", fname, fin[1]]
         else:
             fprefix = None
         chain = []
@@ -238,8 +242,9 @@ def direct_expectations(prog, houses):
             exp = None
             if is_clone and form not in ("abs", "framer", "framerme", "framerinline", "frame", "frameme", "frameinline",
                                          "framemeofframer", "framermain", "framermaininline", "framemain", "framemaininline",
-                                         "framemainofframer", "framemainofframermain", "framerstate"):
-                continue      # named / inode-relative forms inside clones are left to the renaming oracle
+                                         "framemainofframer", "framemainofframermain", "framerstate", "framernamed", "framernamedinline"):
+                continue      # frame-named / inode-relative forms inside clones are left to the renaming oracle (an explicitly
+                              # named framer is the named one also inside a clone)
             if form == "framerstate":
                 exp = ".framer.%s.state.%s" % (fname, w)
             elif form == "abs":
